@@ -60,6 +60,15 @@ def rule_scope(crate):
     body = peel(arm["body"])
     stmts = list(body.get("stmts", [])) + ([body["tail"]] if body.get("tail") is not None else [])
     param_ids = {q["id"] for q in walk(arm["pat"]) if q.get("k") == "Binding" and q.get("name") == "parameters"}
+    # locals computed from `parameters` (`let parameter_bindings = parameters.iter().map(..)`) carry the parameters too
+    changed = True
+    while changed:
+        changed = False
+        for st in walk(arm["body"]):
+            if st.get("k") == "Let" and st.get("init") is not None and st["pat"].get("k") == "Binding" and st["pat"]["id"] not in param_ids:
+                if any(x.get("k") == "Path" and x["res"].get("r") == "local" and x["res"]["id"] in param_ids for x in walk(st["init"])):
+                    param_ids.add(st["pat"]["id"])
+                    changed = True
     reg_idx, visit_idx = [], []
     for si, st in enumerate(stmts):
         has_reg = any(x.get("k") == "MethodCall" and x["name"] == "add_shadowing_identifier" for x in walk(st))
